@@ -7,6 +7,7 @@ import (
 	"fmt"
 	"os"
 	"path/filepath"
+	"strings"
 
 	"src.elv.sh/pkg/store"
 	"verifharness/internal/mon"
@@ -42,7 +43,14 @@ func tail(t []step, n int) []step {
 	return t
 }
 
-func runHistory(c *mon.Case, dirHeavy bool) {
+func runHistory(c *mon.Case, dirHeavy bool) { runHistoryMode(c, dirHeavy, false) }
+
+// runBulk first fills the command log with 600..2000 entries of 20..200
+// bytes (a multi-level B+tree in the implementation, so that searches and
+// listings cross page boundaries), then runs a random history on it.
+func runBulk(c *mon.Case) { runHistoryMode(c, false, true) }
+
+func runHistoryMode(c *mon.Case, dirHeavy, bulk bool) {
 	r := c.Rand
 	path := filepath.Join(c.Dir, fmt.Sprintf("c24-%s-%d.db", c.Phase, c.I))
 	defer os.Remove(path)
@@ -74,6 +82,31 @@ func runHistory(c *mon.Case, dirHeavy bool) {
 	m := refstore.New()
 	steps := 40 + r.Intn(261)
 	var trace []step
+	if bulk {
+		g.W = refstore.CmdWeights
+		g.W[refstore.OpAdd], g.W[refstore.OpDel] = 10, 25
+		n := 600 + r.Intn(1400)
+		for i := 0; i < n; i++ {
+			o := refstore.Op{K: refstore.OpAdd, S: g.Text() + strings.Repeat(string(rune('a'+r.Intn(26))), 20+r.Intn(180))}
+			got := refstore.Exec(st, o)
+			if cl, what := m.Check(o, got); cl != "" {
+				c.Violation("bulk-fill:"+cl, what, map[string]any{"added_before": i})
+				return
+			}
+			if r.Intn(40) == 0 { // holes, also while filling
+				d := refstore.Op{K: refstore.OpDel, A: 1 + r.Intn(m.MaxSeq())}
+				if cl, what := m.Check(d, refstore.Exec(st, d)); cl != "" {
+					c.Violation("bulk-fill:"+cl, what, nil)
+					return
+				}
+			}
+		}
+		c.Count("bulk_entries", n)
+		trace = append(trace, step{Op: fmt.Sprintf("(bulk fill: %d adds)", n)})
+		if !census(c, st, m, "after-bulk-fill", trace) {
+			return
+		}
+	}
 	kinds := map[refstore.Kind]int{}
 	var reopens, tailDeletes, delPresent, delAbsent, noMatch, found, nonEmptyList, unbounded, bigTexts, emptyTexts, prevExact, maxDirs int
 	for s := 0; s < steps; s++ {
@@ -201,7 +234,7 @@ func runHistory(c *mon.Case, dirHeavy bool) {
 func Spec() *mon.Spec {
 	return &mon.Spec{
 		ID: "C24", Level: "exploration",
-		Rule: "case = one random history of 40..300 store API calls (NextCmdSeq, AddCmd, DelCmd, Cmd, CmdsWithSeq, NextCmd, PrevCmd, AddDir, DelDir, Dirs, close+reopen) on a fresh store.NewStore database; texts share prefixes, include empty / binary / ~10 KB texts; sequence arguments are present, deleted, adjacent, 0, around the end, far beyond the end, MaxInt64 (negative only for Cmd/DelCmd); every result is compared with the refstore model, plus a complete census (NextCmdSeq, CmdsWithSeq(0,-1), Dirs) at random points, at the end and after every reopen. Phase 'dirs' uses 40..120 directories (long paths) so that the directory bucket spans several bbolt pages. Non-trivial = history with at least one deletion of a present entry, one successful and one failing lookup; distinct by final command state.",
+		Rule: "case = one random history of 40..300 store API calls (NextCmdSeq, AddCmd, DelCmd, Cmd, CmdsWithSeq, NextCmd, PrevCmd, AddDir, DelDir, Dirs, close+reopen) on a fresh store.NewStore database; texts share prefixes, include empty / binary / ~10 KB texts; sequence arguments are present, deleted, adjacent, 0, around the end, far beyond the end, MaxInt64 (negative only for Cmd/DelCmd); every result is compared with the refstore model, plus a complete census (NextCmdSeq, CmdsWithSeq(0,-1), Dirs) at random points, at the end and after every reopen. Phase 'bulk' first fills the log with 600..2000 entries of 20..200 bytes (several B+tree levels) with holes, then runs a delete/search-heavy history on it. Phase 'dirs' uses 40..120 directories (long paths) so that the directory bucket spans several bbolt pages. Non-trivial = history with at least one deletion of a present entry, one successful and one failing lookup; distinct by final command state.",
 		Assumptions: []string{
 			"first sequence number of a fresh store is 1 (pkg/store/storetest)",
 			"directory scores are compared with relative tolerance 1e-6*(visits+1): the storage precision is undocumented (implementation keeps 7 significant digits)",
@@ -214,12 +247,13 @@ func Spec() *mon.Spec {
 		Phases: []mon.Phase{
 			{Name: "history", Quick: 1600, Thorough: 30000, Run: func(c *mon.Case) { runHistory(c, false) }},
 			{Name: "dirs", Quick: 300, Thorough: 5000, Run: func(c *mon.Case) { runHistory(c, true) }},
+			{Name: "bulk", Quick: 64, Thorough: 1000, Run: runBulk},
 		},
 		Floors: map[string]int{
 			"distinct_nontrivial": 400, "deletes_of_newest_entry": 100, "deletes_present": 3000, "deletes_absent": 1000,
 			"lookups_found": 10000, "lookups_no_match": 5000, "listings_nonempty": 2000, "listings_unbounded": 1000,
 			"texts_over_4k": 100, "texts_empty": 300, "prev_upto_is_present_seq": 3000, "reopens": 1000,
-			"histories_with_60_dirs": 50, "op_AddDir": 10000, "op_Dirs": 2000,
+			"histories_with_60_dirs": 50, "bulk_entries": 20000, "op_AddDir": 10000, "op_Dirs": 2000,
 		},
 	}
 }
